@@ -1022,12 +1022,15 @@ def ignored_arguments(ctx, f, names):
                 roots += list(ast.walk(e))  # a closure over the parameter
             else:
                 roots.append(e)
-        out = frozenset(st - _value_uses(roots, names))
+        used = _value_uses(roots, names)
+        out = frozenset(st - used)
         for e in roots:
             for n in ast.walk(e):
                 if isinstance(n, ast.Name) and isinstance(n.ctx, ast.Store) \
-                        and n.id in names:
-                    out = out - {n.id}
+                        and n.id in names and n.id in out:
+                    # re-bound without having been looked at: whatever the
+                    # caller passed is gone for good on this path
+                    out = (out - {n.id}) | {n.id + '#lost'}
         if cn.kind == 'test':
             nt = _none_test(cn.ast)
             if nt and nt[0] in names:
@@ -1045,6 +1048,7 @@ def ignored_arguments(ctx, f, names):
             continue
         v = cn.ast.value
         pend = IN[cn.id] - (_value_uses([v], names) if v is not None else set())
+        pend = {x.split('#')[0] for x in pend}
         if not pend:
             continue
         t = norm_src(v) if v is not None else 'None'
